@@ -79,7 +79,7 @@ def generate(seed, tier, k):
             if op["axes"] is None and op["axis"] is None:
                 op["axes"] = 2
             ncol_ = op["axes"] if op["axes"] is not None else (op["axis"] or 0) + 1
-            op["values"] = r.choice([0.25, 0.0, [round(r.uniform(-1, 1), 2) for _ in range(ncol_)]])
+            op["values"] = r.choice([0.25, 0.0, [round(r.uniform(-1, 1), 2) for _ in range(ncol_)], 1, -2, [r.choice([-1, 0, 2]) for _ in range(ncol_)], {"np": "int64", "v": 3}, {"np": "intarray", "v": [r.choice([-1, 0, 2]) for _ in range(ncol_)]}])
         ops.append(op)
     doc = {
         "kind": "c17",
@@ -517,6 +517,8 @@ class Machine:
             pts, num, endpoint = op["points"], op["num"], op["endpoint"]
             ax_n = op.get("axes", 2)
             vals_ = op.get("values", 0.25)
+            if isinstance(vals_, dict):  # numpy integer scalar / integer array
+                vals_ = np.int64(vals_["v"]) if vals_["np"] == "int64" else np.asarray(vals_["v"], dtype=int)
             got = fm.linsteps(pts, num=num, endpoint=endpoint, axis=op["axis"], axes=None if op["axis"] is None else ax_n, values=vals_)
             nums = list(np.array([num]).ravel())
             segs = max(len(pts) - 1, 0)
